@@ -15,6 +15,7 @@ import (
 	"strconv"
 	"strings"
 	"sync"
+	"sync/atomic"
 	"time"
 
 	"github.com/streamingfast/bstream"
@@ -163,6 +164,9 @@ type Config struct {
 	AfterJob func(unit stage.Unit)
 	// LateReads, when set, holds the squasher's racing reads of full-store snapshots (owned scheduler only)
 	LateReads *LateReads
+	// ticks counts signs of progress (a block handed to a pipeline, a job started or finished, a response): the
+	// watchdog tells a slow request from one that is stuck
+	ticks *int64
 }
 
 type Request struct {
@@ -303,6 +307,7 @@ func (s *source) Run(ctx context.Context) error {
 			}
 		}
 		blk, o := st.block()
+		s.cfg.tick()
 		err := s.h.ProcessBlock(blk, o)
 		if err != nil {
 			if errors.Is(err, io.EOF) {
@@ -315,6 +320,12 @@ func (s *source) Run(ctx context.Context) error {
 		}
 	}
 	return io.EOF
+}
+
+func (cfg *Config) tick() {
+	if cfg.ticks != nil {
+		atomic.AddInt64(cfg.ticks, 1)
+	}
 }
 
 func (cfg *Config) streamFactory(tier2 bool) service.StreamFactoryFunc {
@@ -390,6 +401,7 @@ func (w *worker) Work(ctx context.Context, unit stage.Unit, startBlock uint64, m
 	rec := len(ws.jobs)
 	ws.jobs = append(ws.jobs, JobRecord{Stage: unit.Stage, Segment: unit.Segment, Start: ws.seq, End: -1})
 	ws.seq++
+	ws.cfg.tick()
 	ws.running++
 	mySeq := ws.jobSeq
 	ws.jobSeq++
@@ -410,6 +422,7 @@ func (w *worker) Work(ctx context.Context, unit stage.Unit, startBlock uint64, m
 		ws.mu.Lock()
 		ws.jobs[rec].End = ws.seq
 		ws.seq++
+		ws.cfg.tick()
 		if err != nil {
 			ws.jobs[rec].Err = err.Error()
 		}
@@ -512,6 +525,7 @@ func BaseContext(ctx context.Context, cfg *Config) context.Context {
 
 // Run executes one tier1 request.
 func Run(mods *pbsubstreams.Modules, req Request, cfg Config) *Result {
+	cfg.ticks = new(int64)
 	ctx, cancel := context.WithCancel(context.Background())
 	defer cancel()
 	ctx = BaseContext(ctx, &cfg)
@@ -552,23 +566,43 @@ func Run(mods *pbsubstreams.Modules, req Request, cfg Config) *Result {
 				done <- fmt.Errorf("PANIC in tier1: %v\n%s", r, buf)
 			}
 		}()
-		done <- svc.TestBlocks(ctx, false, request, col.collect)
+		done <- svc.TestBlocks(ctx, false, request, func(r substreams.ResponseFromAnyTier) error {
+			if rr, ok := r.(*pbsubstreamsrpc.Response); ok {
+				if _, isData := rr.Message.(*pbsubstreamsrpc.Response_BlockScopedData); isData {
+					cfg.tick() // the periodic progress messages are no sign of progress
+				}
+			}
+			return col.collect(r)
+		})
 	}()
 	limit := cfg.Timeout
 	if limit == 0 {
 		limit = 20 * time.Second
 	}
-	select {
-	case res.Err = <-done:
-	case <-time.After(limit):
-		buf := make([]byte, 1<<20)
-		buf = buf[:runtime.Stack(buf, true)]
-		res.Hung = true
-		res.Err = fmt.Errorf("%w after %s\n%s", ErrHung, limit, interestingStacks(string(buf)))
-		cancel()
+	// A request is stuck when a whole window of `limit` passes without any sign of progress; a request that is
+	// merely slow (loaded machine) keeps ticking and is given up to 15 windows.
+	finished := false
+	last := atomic.LoadInt64(cfg.ticks)
+	for window := 0; window < 15 && !finished; window++ {
 		select {
-		case <-done:
-		case <-time.After(2 * time.Second):
+		case res.Err = <-done:
+			finished = true
+		case <-time.After(limit):
+			now := atomic.LoadInt64(cfg.ticks)
+			if now != last && window < 14 {
+				last = now
+				continue
+			}
+			buf := make([]byte, 1<<20)
+			buf = buf[:runtime.Stack(buf, true)]
+			res.Hung = true
+			res.Err = fmt.Errorf("%w after %s without progress (%d windows)\n%s", ErrHung, limit, window+1, interestingStacks(string(buf)))
+			cancel()
+			select {
+			case <-done:
+			case <-time.After(2 * time.Second):
+			}
+			finished = true
 		}
 	}
 	col.mu.Lock()
